@@ -404,7 +404,6 @@ func allIdx(n int) []int {
 	return out
 }
 
-
 func hookFamilyPriority(sc *scenario) func(t *mc.Thread) bool {
 	if sc.Hooks == "hang" {
 		return nil
